@@ -6,7 +6,7 @@ notes={'C01':'token sequences k<=4 (full) / k<=5 (class), bytes n<=6','C02':'cla
 'C04':'full 880-operand grid x 5 operators, chains, far exponents','C05':'same grid as quick (one process)','C06':'same spaces as quick','C07':'programs up to 6 nodes, histories','C08':'pairs, triples over 16 entries, quadruples over 8',
 'C09':'bound 3 for evaluate/analyse pairs, 2 otherwise; reports the bound completed per scenario; leg B time-limited','C10':'up to 5 nodes, token sequences k<=5','C11':'up to two fixed parameters over 21 kinds, n+2 arguments (four arguments: over the first eight argument kinds)',
 'C12':'n<=8','C13':'all escape-form combinations for 3 atoms','C14':'bytes n<=6, full lexeme alphabet','C15':'break joiners over 3 tokens, helpers over 7 atoms, byte sequences of 4','C16':'depth 4',
-'C17':'strings up to 4 symbols','C18':'full grid','C19':'every year 1590-2410 plus every 25th year 1-9999, six zones','C20':'unmerged depth 4 over 44 operations, merged depth 7'}
+'C17':'strings up to 4 symbols','C18':'full grid','C19':'every year 1590-2410 plus every 25th year 1-9999, six zones','C20':'unmerged depth 4 over 55 operations complete (9.3 M histories); this run had a 20-minute budget, which cut the merged search (the tier allows 60)'}
 rows=['| id | evaluations | states | wall | exhaustive | note |','|---|---|---|---|---|---|']
 for m in re.finditer(r'^(C\d\d) thorough: evaluations=(\d+) states=(\d+) .*?exhaustive=(\w+) failures=(\d+) known=(\d+) wall=([\d.]+)s',log,re.M):
     c,ev,st,ex,fa,kn,wall=m.groups()
